@@ -495,13 +495,22 @@ class DeployEngine(object):
                          % (pname, sorted(k for k in place_kwargs), radius,
                             style, [f.__module__.split(".")[-1]
                                     for f in methods[0]]))
+            # what rig is given as keys: the caller's integers, or the
+            # elements of a numpy key array (32-bit unsigned scalars)
+            rig_keys = g.net_keys
+            if t.draw(6) == 0:
+                import numpy
+                w.probe("numpy_net_keys")
+                rig_keys = type(g.net_keys)(
+                    (n_, (numpy.uint32(k_), numpy.uint32(m_)))
+                    for n_, (k_, m_) in g.net_keys.items())
             tables = None
             if style == 1 and sys_info is not None:
                 # the new wrapper does everything from the SystemInfo
                 w.probe("wrapper_new")
                 st, val = rigcall(
                     w, allowed, par.place_and_route_wrapper,
-                    g.vertices_resources, apps, g.nets, g.net_keys, sys_info,
+                    g.vertices_resources, apps, g.nets, rig_keys, sys_info,
                     app_cons, place=place_fn, place_kwargs=place_kwargs,
                     route_kwargs={"radius": radius},
                     minimise_tables_methods=methods[0], **rk3)
@@ -514,7 +523,7 @@ class DeployEngine(object):
                 w.probe("wrapper_deprecated")
                 st, val = rigcall(
                     w, allowed, par.wrapper, g.vertices_resources, apps,
-                    g.nets, g.net_keys, machine, base_cons + app_cons,
+                    g.nets, rig_keys, machine, base_cons + app_cons,
                     reserve_monitor=False,
                     place=place_fn, place_kwargs=place_kwargs,
                     route_kwargs={"radius": radius}, **rk2)
@@ -596,12 +605,12 @@ class DeployEngine(object):
                 if self.c03:
                     w.ops_completed += 1
                     return {"stage": "routed", "nets": len(g.nets)}
-                given_keys = g.net_keys
+                given_keys = rig_keys
                 if t.draw(4) == 0:
                     # keys listed in another order than the routes
                     w.probe("net_keys_other_order")
                     given_keys = type(g.net_keys)(
-                        reversed(list(g.net_keys.items())))
+                        reversed(list(rig_keys.items())))
                 st, tables = rigcall(w, allowed,
                                      self.rt.routing_tree_to_tables, routes,
                                      given_keys)
